@@ -104,7 +104,7 @@ pub fn part() -> Box<dyn Part> {
     Box::new(RandomPart {
         name: "typed_pairing_sim",
         rule: "proptest: 1-8 steps of typed tuples (arity 1-8) and Vecs (length 0-12) of probe commands whose reply identifies the command (some answering ACK at a generated position), fixed mixed tuples of real commands (Status, Stats, CurrentSong, GetPlaylists, ListChannels, ReplayGainStatus, Ping) with distinguishable canned replies, interleaved with notifications and timer advances, any segmentation and partial writes, sent through Client::command_list against the simulated MPD; result i must be decoded from the frame of command i; the empty Vec must resolve to an empty result; the server must raise no framing verdict. non-trivial = list of >=2, the empty list, or a mixed tuple",
-        cases: (10_000, 500_000),
+        cases: (30_000, 1_000_000),
         strategy: Box::new(|_t| {
             (
                 any::<u64>(),
